@@ -352,6 +352,15 @@ class Canon:
         return p_atom(("ln", g))
 
     def ln_const(self, c: Fraction) -> dict:
+        if c == 1:
+            return {}
+        primes = set(factor_int(c.numerator)) | set(factor_int(c.denominator))
+        if len(primes) > 1:
+            # a composite constant: ln c is kept as one positive atom (splitting it into a sum of
+            # prime logarithms would put sums into denominators); ln(1/c) = -ln c
+            if c > 1:
+                return p_atom(("lnc", c))
+            return p_neg(p_atom(("lnc", 1 / c)))
         out = {}
         for pr, k in factor_int(c.numerator).items():
             out = p_add(out, p_scale(p_atom(("lnc", pr)), Fraction(k)))
@@ -648,7 +657,7 @@ def compare_terms(t1, t2, signs: dict, seed: int = 0, region_env=None):
             v2 = numeval(t2, env)
         except (Undefined, TooHard, OverflowError, ValueError, ZeroDivisionError):
             continue
-        scale = max(abs(v1), abs(v2), 1e-9)
+        scale = max(abs(v1), abs(v2), 1e-200)
         if abs(v1 - v2) / scale > 1e-6:
             differ = {"at": env, "values": [v1, v2]}
             break
